@@ -11,6 +11,7 @@
      S lo hi prog                     run_scan on the model store            -> "S o0 o1 ... on"
      L lo hi prog                     run_live (reference cursor over live_spec) -> "L o0 ... on"
      T lo hi prog                     run_tree_scan on the store's version   -> "T o0 ... on"
+     D lo hi prog   -> "D o0 .. on"  run_scan_dup: the snapshot taken while the memtable is being flushed and its sst is already in the tree (every pair of the immutable memtable merged twice)
      Q                                sequence counter                       -> "Q <seq>"
    keys/values hex ('-' empty), entry = key.ts.val ('~' tombstone), file = id:sz:e,e  files ';' levels '/'
    bounds: U | I<hex> | E<hex> (I- / E- = the empty key); prog: comma list of F L N P S<hex>, `_` = empty program
@@ -81,7 +82,7 @@ let show_obs (o : obs) : string =
   let (kv, f) = o in
   (match kv with
    | None -> "."
-   | Some e -> hex_of_bytes e.ek0 ^ "=" ^ (match e.ev0 with None -> "~" | Some v -> hex_of_bytes v))
+   | Some e -> hex_of_bytes e.ek0 ^ "@" ^ dec_of_n e.ets0 ^ "=" ^ (match e.ev0 with None -> "~" | Some v -> hex_of_bytes v))
   ^ (match f with None -> "" | Some Panic -> "!P" | Some LogicError -> "!L" | Some OutOfFuel -> "!F")
 let scan_args (rest : string) =
   match split ' ' rest with
@@ -171,6 +172,7 @@ let () =
          | 'S' -> let (lo, hi, prog) = scan_args rest in print_endline (show_run "S" (run_scan !s lo hi prog))
          | 'L' -> let (lo, hi, prog) = scan_args rest in print_endline (show_run "L" (run_live !s lo hi prog))
          | 'T' -> let (lo, hi, prog) = scan_args rest in print_endline (show_run "T" (run_tree_scan !s.ver lo hi prog))
+         | 'D' -> let (lo, hi, prog) = scan_args rest in print_endline (show_run "D" (run_scan_dup !s lo hi prog))
          | 'Q' -> print_endline ("Q " ^ dec_of_n !s.seq)
          | _ -> failwith ("bad command " ^ line));
       end
